@@ -959,7 +959,7 @@ def oracle_conn(h):
     return fails
 
 
-def conn_lines(h, legacy):
+def conn_lines(h, legacy, strict=False):
     """per peer: transport operations, the handshake as observed, frames; the model must publish the same states"""
     out = []
     for p in range(h.nclients + 1):
@@ -985,7 +985,7 @@ def conn_lines(h, legacy):
                 script.append("f")
                 script.append("x:%s:%s" % (st["server_state"], st["client_state"]))
         if script:
-            out.append("conn %s/%d %d %s" % (h.id, p, 1 if legacy else 0, ";".join(script)))
+            out.append("conn %s/%d %d %s" % (h.id, p, (1 if legacy else 0) + (2 if strict else 0), ";".join(script)))
     return out
 
 
@@ -1354,11 +1354,12 @@ def classify_promo(h, fails):
     touched = set()      # uuids some application touched while the hand-over was under way
     for a, b, old in windows:
         for e in h.events[a:b]:
-            # the recorded cases: anything the former host's application does; marks and links made on the promoted peer
+            # the recorded cases: anything the former host's application does; marks, links and despawns on the promoted peer
+            # (a despawn there is D16 once more: the former host is a returning client and the snapshot cannot say 'drop it')
             # (a component written there is repaired by the snapshot the former host requests and stays checked)
             if e["ev"] == "op" and e.get("h") in binds and (
                     (e["peer"] == old and e["op"] in ("spawn", "write", "set_parent", "despawn"))
-                    or (e["peer"] != old and e["op"] in ("spawn", "set_parent"))):
+                    or (e["peer"] != old and e["op"] in ("spawn", "set_parent", "despawn"))):
                 touched.add(binds[e["h"]][:8])
                 if e.get("parent") in binds:
                     touched.add(binds[e["parent"]][:8])
